@@ -2026,3 +2026,179 @@ func ruleServerLoopShape(p *Prog, r *Out) {
 		r.check(streamReg && bufReg, "response body is registered before sending starts", p.pos(fr.Pos()), "stream: bodyStream, bodySize; buffer: pendingData = Body(), pendingEnd = true", "finishRequest no longer registers the response body with the stream (the reader and its declared size, or the buffer with its end marker): the body is never sent, or its end never signalled")
 	}
 }
+
+func init() {
+	register(&Rule{
+		Name: "server-response-encoding", Props: []string{"C01", "C06", "C09", "C17"}, Engine: "FDE", Floor: 7,
+		Doc: "the response header block starts with :status taken from the handler's status code and then carries every field of the response, each copied, lower-cased and appended; the write loop flushes after a frame exactly when no error occurred and the queue is empty or enough frames are buffered (so a queued frame is never left in the buffer while the loop sleeps), and flushes before it leaves on writeStop; a panicking handler is answered with a fresh 500 response and still reports back; the request decoder is told 'start of block' exactly while no field of the block has been decoded, and literal :path / :scheme values replace, not extend, what was there",
+		Run: ruleServerResponseEncoding,
+	})
+}
+
+func ruleServerResponseEncoding(p *Prog, r *Out) {
+	if fd := p.decl("fasthttpResponseHeaders"); fd != nil {
+		r.fn("fasthttpResponseHeaders")
+		order := []string{}
+		var loop *ast.RangeStmt
+		for _, s := range fd.Body.List {
+			if es, ok := s.(*ast.ExprStmt); ok {
+				t := squash(p.text(es.X))
+				switch t {
+				case "hf.SetKeyBytes(StringStatus)":
+					order = append(order, "key")
+				case "hf.SetValueBytes(statusBytes(res.Header.StatusCode()))":
+					order = append(order, "value")
+				case "dst.AppendHeaderField(hp,hf,true)":
+					order = append(order, "emit")
+				}
+			}
+			if rs, ok := s.(*ast.RangeStmt); ok {
+				loop = rs
+				order = append(order, "fields")
+			}
+		}
+		r.check(strings.Join(order, ",") == "key,value,emit,fields", "response block opens with :status from the handler's status code", p.pos(fd.Pos()), ":status = statusBytes(StatusCode()); append; then the fields", "the response header block no longer starts with a :status field carrying the handler's status code (steps found: "+strings.Join(order, ",")+")")
+		steps := []string{}
+		if loop != nil {
+			for _, s := range loop.Body.List {
+				if es, ok := s.(*ast.ExprStmt); ok {
+					t := squash(p.text(es.X))
+					switch t {
+					case "hf.SetBytes(k,v)":
+						steps = append(steps, "set")
+					case "ToLower(hf.key)":
+						steps = append(steps, "lower")
+					case "dst.AppendHeaderField(hp,hf,false)":
+						steps = append(steps, "emit")
+					}
+				}
+			}
+		}
+		r.check(strings.Join(steps, ",") == "set,lower,emit", "every response field is copied, lower-cased and appended", p.pos(fd.Pos()), "hf.SetBytes(k, v); ToLower(hf.key); AppendHeaderField", "the per-field steps of the response encoder are "+strings.Join(steps, ",")+": a field the handler set does not reach the peer, or goes out with an upper-case name (malformed in HTTP/2)")
+	} else {
+		r.undecided("fasthttpResponseHeaders", "?", "no longer resolves")
+	}
+	if fd := p.decl("(*serverConn).writeLoop"); fd != nil {
+		r.fn("(*serverConn).writeLoop")
+		c := fdeCheck{p, r, p.pos(fd.Pos())}
+		var flushIf *ast.IfStmt
+		ast.Inspect(fd.Body, func(n ast.Node) bool {
+			if ifs, ok := n.(*ast.IfStmt); ok && flushIf == nil {
+				fl := false
+				for _, s := range ifs.Body.List {
+					if as, ok := s.(*ast.AssignStmt); ok && squash(p.text(as.Rhs[0])) == "sc.bw.Flush()" {
+						fl = true
+					}
+				}
+				if fl {
+					flushIf = ifs
+				}
+			}
+			return true
+		})
+		if flushIf != nil {
+			c.expr("flush when the queue is empty (or enough is buffered) and nothing failed", flushIf.Cond, fdeDomain{[]string{"err==nil", "len(sc.writer)", "buffered"}, [][]int64{{0, 1}, {0, 1, 5}, {0, 5, 10, 11, 50}}}, nil, func(e fdeEnv) int64 {
+				return b2i(e["err==nil"] != 0 && (e["len(sc.writer)"] == 0 || e["buffered"] > 10))
+			}, "err == nil && (len(writer) == 0 || buffered > 10)", "when the queue is empty after a frame the loop goes to sleep: anything still in the buffer then stays there, and the peer waits for a response (or a WINDOW_UPDATE) that was 'sent'")
+		} else {
+			r.bad("flush when the queue is empty (or enough is buffered) and nothing failed", c.pos, "the write loop never flushes after a frame")
+		}
+		drainFlush := false
+		ast.Inspect(fd.Body, func(n ast.Node) bool {
+			if cc, ok := n.(*ast.CommClause); ok && cc.Comm == nil { // default arm
+				fl, ret := false, false
+				for _, s := range cc.Body {
+					if as, ok := s.(*ast.AssignStmt); ok && squash(p.text(as.Rhs[0])) == "sc.bw.Flush()" {
+						fl = true
+					}
+					if _, ok := s.(*ast.ReturnStmt); ok {
+						ret = true
+					}
+				}
+				if fl && ret {
+					drainFlush = true
+				}
+			}
+			return true
+		})
+		r.check(drainFlush, "the drained queue is flushed before the write loop leaves", p.pos(fd.Pos()), "default: bw.Flush(); return", "on writeStop the write loop no longer flushes what it drained before it leaves: the GOAWAY written on the way out never reaches the peer")
+	}
+	if fd := p.decl("(*serverConn).dispatchHandler"); fd != nil {
+		r.fn("(*serverConn).dispatchHandler")
+		reset, status, reports := false, false, false
+		ast.Inspect(fd.Body, func(n ast.Node) bool {
+			switch x := n.(type) {
+			case *ast.IfStmt:
+				if x.Init != nil && strings.Contains(p.text(x.Init), "recover()") && squash(p.text(x.Cond)) == "err!=nil" {
+					for _, s := range x.Body.List {
+						if es, ok := s.(*ast.ExprStmt); ok {
+							t := squash(p.text(es.X))
+							if t == "ctx.Response.Reset()" {
+								reset = true
+							}
+							if t == "ctx.Response.SetStatusCode(fasthttp.StatusInternalServerError)" {
+								status = true
+							}
+						}
+					}
+				}
+			case *ast.SelectStmt:
+				for _, cl := range x.Body.List {
+					cc := cl.(*ast.CommClause)
+					if ss, ok := cc.Comm.(*ast.SendStmt); ok && squash(p.text(ss.Chan)) == "sc.handlerDone" && p.text(ss.Value) == "strm" {
+						reports = true
+					}
+				}
+			}
+			return true
+		})
+		r.check(reset && status, "a panicking handler is answered with a fresh 500", p.pos(fd.Pos()), "recover: Response.Reset(); SetStatusCode(500)", "a handler panic no longer turns into a clean 500 response: whatever the handler had half written goes out with its status, or nothing does")
+		r.check(reports, "the handler goroutine reports back", p.pos(fd.Pos()), "select { case sc.handlerDone <- strm: ... }", "the handler goroutine no longer hands its stream back on handlerDone: the response is never sent and the slot never returned")
+	}
+	if fd := p.decl("(*serverConn).handleHeaderFrame"); fd != nil {
+		r.fn("(*serverConn).handleHeaderFrame")
+		c := fdeCheck{p, r, p.pos(fd.Pos())}
+		var startArg, countArg ast.Expr
+		var loop *ast.ForStmt
+		ast.Inspect(fd.Body, func(n ast.Node) bool {
+			switch x := n.(type) {
+			case *ast.CallExpr:
+				if p.calleeOf(x) == "(*HPACK).nextField" && len(x.Args) == 4 {
+					startArg, countArg = x.Args[1], x.Args[2]
+				}
+			case *ast.ForStmt:
+				if loop == nil {
+					loop = x
+				}
+			}
+			return true
+		})
+		c.expr("decoder is told 'start of block' while no field of the block was decoded", startArg, fdeDomain{[]string{"strm.blockFields"}, [][]int64{seq(0, 4)}}, nil, func(e fdeEnv) int64 { return b2i(e["strm.blockFields"] == 0) }, "strm.blockFields == 0", "a dynamic table size update is legal exactly there (RFC 7541 s4.2)")
+		r.check(countArg != nil && squash(p.text(countArg)) == "strm.blockFields", "decoder is given the count of fields decoded in this block", p.pos(fd.Pos()), "nextField(hf, blockFields == 0, blockFields, b)", "the decoder no longer receives the number of fields already decoded in this block")
+		if loop != nil && loop.Cond != nil {
+			c.expr("decode loop runs while input remains", loop.Cond, fdeDomain{[]string{"len(b)"}, [][]int64{seq(0, 3)}}, nil, func(e fdeEnv) int64 { return b2i(e["len(b)"] > 0) }, "len(b) > 0", "the last field of a block may be a single octet")
+		}
+		// literal values replace what was there; the carried-over bytes are consumed
+		repl, consumed := 0, false
+		ast.Inspect(fd.Body, func(n ast.Node) bool {
+			as, ok := n.(*ast.AssignStmt)
+			if !ok || len(as.Lhs) != 1 {
+				return true
+			}
+			l := squash(p.text(as.Lhs[0]))
+			if l == "strm.path" || l == "strm.scheme" {
+				if cl, ok := as.Rhs[0].(*ast.CallExpr); ok && p.calleeOf(cl) == "builtin.append" {
+					if _, _, hi, ok := p.sliceBounds(cl.Args[0]); ok && hi == 0 {
+						repl++
+					}
+				}
+			}
+			if l == "strm.previousHeaderBytes" && squash(p.text(as.Rhs[0])) == "b[:0]" {
+				consumed = true
+			}
+			return true
+		})
+		r.check(repl == 2, ":path and :scheme replace the stream's previous value", p.pos(fd.Pos()), "append(strm.path[:0], v...) / append(strm.scheme[:0], v...)", "the :path or :scheme value is appended to what the stream already held (the default scheme, or a stale octet) rather than replacing it")
+		r.check(consumed, "carried-over header bytes are consumed once", p.pos(fd.Pos()), "b = append(previous, frame...); previous = b[:0]", "the bytes carried over from the previous frame are no longer cleared after being prepended: they are decoded again with every following frame")
+	}
+}
